@@ -98,6 +98,59 @@ fn observe(comps: &[String], via: &str) -> Result<(String, Vec<String>, bool), S
     })
 }
 
+
+/// set the present components on a builder that may have been used before
+fn fill(b: &mut PersonNameBuilder<'static>, comps: &[String]) {
+    if !comps[0].is_empty() {
+        b.with_family(comps[0].clone());
+    }
+    if !comps[1].is_empty() {
+        b.with_given(comps[1].clone());
+    }
+    if !comps[2].is_empty() {
+        b.with_middle(comps[2].clone());
+    }
+    if !comps[3].is_empty() {
+        b.with_prefix(comps[3].clone());
+    }
+    if !comps[4].is_empty() {
+        b.with_suffix(comps[4].clone());
+    }
+}
+const REUSE_ROUTES: [&str; 3] = ["reuse build()", "reuse into() from &mut", "reuse into() from owned"];
+/// the next name from ONE builder reused for a whole sequence of names, through a public
+/// conversion route; every route is documented to leave the builder in its default state
+fn next_from(b: &mut PersonNameBuilder<'static>, comps: &[String], route: &str) -> PersonName<'static> {
+    fill(b, comps);
+    match route {
+        "reuse build()" => b.build(),
+        "reuse into() from &mut" => {
+            let r: &mut PersonNameBuilder<'static> = b;
+            r.into()
+        }
+        _ => std::mem::take(b).into(),
+    }
+}
+/// (text, components parsed back) of each name of a sequence built from one reused builder
+fn reuse_sequence(seq: &[Vec<String>], route: &str) -> Result<Vec<(String, Vec<String>)>, String> {
+    let seq = seq.to_vec();
+    let route = route.to_string();
+    catch(move || {
+        let mut b = PersonNameBuilder::new();
+        seq.iter()
+            .map(|comps| {
+                let pn = next_from(&mut b, comps, &route);
+                let text = pn.to_dicom_string();
+                let back = parts(&PersonName::from_text(&text));
+                (text, back)
+            })
+            .collect()
+    })
+}
+fn mask_of(comps: &[String]) -> usize {
+    comps.iter().enumerate().map(|(i, c)| if c.is_empty() { 0 } else { 1 << i }).sum()
+}
+
 fn presence(comps: &[String]) -> String {
     comps.iter().map(|c| if c.is_empty() { '-' } else { 'P' }).collect()
 }
@@ -155,13 +208,65 @@ fn replay(cases: &str, _out: &str) {
             }
         }
     }
+    // one builder reused for a sequence of names: the 32 presence combinations ascending, descending
+    // and in a seeded order, each name compared with the text TLC expects for ITS OWN components
+    let all: Vec<(Vec<String>, String)> = read_ndjson(cases)
+        .iter()
+        .map(|c| (j_arr(&c["comps"]).iter().map(from_cps).collect(), from_cps(&c["text"])))
+        .collect();
+    let mut rng = Rng::new(seed_from_env() ^ 0xB17);
+    let mut reuse_names = 0usize;
+    if !all.is_empty() {
+        for round in 0..6 {
+            // one case per presence mask (a different pick every round), where the mask occurs
+            let mut per_mask: Vec<Option<usize>> = vec![None; 32];
+            let start = rng.below(all.len() as u64) as usize;
+            for k in 0..all.len() {
+                let i = (start + k * 7919) % all.len();
+                let m = mask_of(&all[i].0);
+                if per_mask[m].is_none() {
+                    per_mask[m] = Some(i);
+                }
+            }
+            let mut order: Vec<usize> = per_mask.iter().flatten().cloned().collect();
+            match round % 3 {
+                0 => {}
+                1 => order.reverse(),
+                _ => {
+                    for i in (1..order.len()).rev() {
+                        order.swap(i, rng.below(i as u64 + 1) as usize);
+                    }
+                }
+            }
+            let seq: Vec<Vec<String>> = order.iter().map(|i| all[*i].0.clone()).collect();
+            for route in REUSE_ROUTES {
+                match reuse_sequence(&seq, route) {
+                    Err(msg) => rep.mismatch_fp(json!({"fp": format!("panic building names from a reused builder ({route})"), "panic": msg})),
+                    Ok(got) => {
+                        for (k, (text, back)) in got.iter().enumerate() {
+                            reuse_names += 1;
+                            let (comps, exp_text) = &all[order[k]];
+                            if text != exp_text || back != comps {
+                                let prev = if k > 0 { presence(&all[order[k - 1]].0) } else { "(first)".to_string() };
+                                rep.mismatch_fp(json!({"fp": format!("a name built from a reused PersonNameBuilder differs from its own components ({route})"),
+                                    "comps": parts_json(comps), "presence": presence(comps), "previous_name_presence": prev,
+                                    "expected_text": cps_json(exp_text), "got_text": cps_json(text), "got_back": parts_json(back)}));
+                                break;
+                            }
+                        }
+                    }
+                }
+            }
+        }
+    }
+    rep.extra.insert("reuse_names".into(), Value::from(reuse_names as u64));
     rep.extra.insert("nontrivial".into(), Value::from(nontrivial as u64));
     rep.extra.insert("drift_some_empty".into(), Value::from(drift_some_empty as u64));
     rep.extra.insert("drift_example".into(), drift_example);
     rep.print();
 }
 
-/// repertoire for random component texts (premise of C17: no '^', '=', '\\', no edge spaces;
+/// repertoire for random component texts (premise of C17: no '^', '=', no edge spaces;
 /// control characters are not part of the PN repertoire)
 fn rand_char(rng: &mut Rng, edge: bool) -> char {
     loop {
@@ -179,14 +284,20 @@ fn rand_char(rng: &mut Rng, edge: bool) -> char {
             7 => rng.range(0x410, 0x44f) as u32,
             8 => rng.range(0x4e00, 0x9fa5) as u32,
             9 => rng.range(0x3041, 0x30fe) as u32,
-            10 => rng.range(0x1f600, 0x1f64f) as u32,
+            10 => {
+                if rng.coin() {
+                    *rng.pick(&['\\', '/', '.', ',', '-', '\'', '"', '@']) as u32
+                } else {
+                    rng.range(0x1f600, 0x1f64f) as u32
+                }
+            }
             _ => rng.range(0xac00, 0xd7a3) as u32,
         };
         let ch = match char::from_u32(c) {
             Some(ch) => ch,
             None => continue,
         };
-        if ch == '^' || ch == '=' || ch == '\\' || ch.is_control() {
+        if ch == '^' || ch == '=' || ch.is_control() {
             continue;
         }
         if edge && ch.is_whitespace() {
@@ -227,6 +338,32 @@ fn record(n: usize, out: &str) {
             Err(msg) => {
                 panics += 1;
                 w.emit(&json!({"ev": "pn", "via": via, "presence": presence(&comps), "comps": parts_json(&comps), "res": "panic", "msg": msg}))
+            }
+        }
+    }
+    // sequences of names from one reused builder (seeded order of presence combinations)
+    for round in 0..(n / 160 + 1) {
+        let route = REUSE_ROUTES[round % 3];
+        let seq: Vec<Vec<String>> = (0..32)
+            .map(|_| {
+                let mask = rng.below(32);
+                (0..5).map(|k| if mask >> k & 1 == 1 { rand_comp(&mut rng) } else { String::new() }).collect()
+            })
+            .collect();
+        match reuse_sequence(&seq, route) {
+            Ok(got) => {
+                for (comps, (text, back)) in seq.iter().zip(got.iter()) {
+                    rep.cases += 1;
+                    if comps.iter().any(|c| !c.is_empty()) {
+                        nontrivial += 1;
+                    }
+                    w.emit(&json!({"ev": "pn", "via": route, "presence": presence(comps), "comps": parts_json(comps), "res": "ok",
+                        "struct_equal": back == comps, "text": cps_json(text), "back": parts_json(back)}));
+                }
+            }
+            Err(msg) => {
+                panics += 1;
+                w.emit(&json!({"ev": "pn", "via": route, "presence": presence(&seq[0]), "comps": parts_json(&seq[0]), "res": "panic", "msg": msg}));
             }
         }
     }
